@@ -112,7 +112,7 @@ def mon_timestep(args, kwargs, result, tok):
     with probes.quiet():
         d2 = np.atleast_1d(np.asarray(model.timestep([np.array(x, copy=True) for x in data], dx, 2.0 * cfl), float))
         d3 = np.atleast_1d(np.asarray(model.timestep([np.array(x, copy=True) for x in data], np.asarray(dx, float) * 4.0, cfl), float))
-    fin = np.isfinite(dt)
+    fin = np.isfinite(dt) & (np.abs(dt) > 1e-290) & (np.abs(dt) < 1e290)        # doubling / quadrupling a subnormal or near-overflow step is not exact
     ctx.true("prop-cfl", np.array_equal(d2[fin], 2.0 * dt[fin]), "timestep/%s/not-proportional-to-cfl" % name, None, cls=cls)
     ctx.true("prop-size", np.array_equal(d3[fin], 4.0 * dt[fin]), "timestep/%s/not-proportional-to-cell-size" % name, None, cls=cls)
     n = dt.size
